@@ -1304,6 +1304,37 @@ static void build_large (int thorough, const char *which)
 		}
 	}
 	if (strstr (which, "ldpc")) {
+		/* dense source columns: N1 equal or close to n-k (every source symbol in (almost) every equation) and N1 in {9, 12, 15}: one
+		 * submission brings up to n-k equations to one unknown at once (tables that grow 4 or 8 entries at a time grow several times) */
+		int k, r, vi;
+		for (k = 2; k <= 4; k++) for (r = 3; r <= 24; r++) {
+			int n1s[5], nn = 0;
+			n1s[nn++] = r; if (r - 1 >= 3) n1s[nn++] = r - 1;
+			if (r > 10) n1s[nn++] = 9; if (r > 13) n1s[nn++] = 12; if (r > 16) n1s[nn++] = 15;
+			for (vi = 0; vi < nn; vi++) {
+				if (!thorough && vi >= 2 && (r + k + vi) % 2) continue;
+				c0 = NCF; add_cfg (3, 0, k, r, n1s[vi], 1 + (r + k) % 5, 4, 0, (k + r + vi) % 3 == 0, 0);
+				add_scen (c0, "Ra-,F"); add_scen (c0, "Ba-"); add_scen (c0, "Aa-,F");
+				for (a = 0; a < k; a++) {
+					add_scen (c0, "Ra-%d", a); add_scen (c0, "Ba-%d", a); add_scen (c0, "Ra-%d,F", a); add_scen (c0, "Ca-%d", a);
+					for (b = a + 1; b < k; b++) { add_scen (c0, "Ra-%d.%d,F", a, b); add_scen (c0, "Ra-%d.%d,D%d", a, b, a); add_scen (c0, "Ba-%d.%d,D%d,F", a, b, b); }
+				}
+				add_scen (c0, "Ra-%d.%d,F", 0, k + r - 1); add_scen (c0, "Ra-%d.%d,D%d", 0, k + r / 2, k + r / 2);
+			}
+		}
+	}
+	if (strstr (which, "ldpc")) {
+		/* every number of repair symbols 131..2100 (thorough ..4200) with k = 2(n-k), short symbols: windows of 1.05k / 1.1k / 1.2k received
+		 * symbols, most of which need Gaussian elimination (whose handling of the n-k repair symbols - permutations, counters - is what varies) */
+		int r;
+		for (r = 131; r <= (thorough ? 4200 : 2100); r++) {
+			int k = 2 * r, n = 3 * r;
+			c0 = NCF; add_cfg (3, 0, k, r, 3 + r % 3, 1 + r % 7, 0, 0, 0, 0); CF[c0].len = 8;
+			add_scen (c0, "Sw%d+%d,F", r / 3, k + k / 20); add_scen (c0, "Sw%d+%d,F", (int) (((long) r * 7919) % n), k + k / 10);
+			if (r % 4 == 0 || thorough) add_scen (c0, "Bw%d+%d,F", r, k + k / 5);
+		}
+	}
+	if (strstr (which, "ldpc")) {
 		/* low rates with even N1 whose number of extra entries 2(n-k) - N1*k is next to 2^8 / 2^9 (thorough: 2^16): counters of every width */
 		static const int EX[] = {254, 256, 258, 512, 65536};
 		int k, N1, ei;
